@@ -5,6 +5,7 @@ package c52
 import (
 	"context"
 	"fmt"
+	"log/slog"
 	"math"
 	"math/rand/v2"
 	"os"
@@ -23,8 +24,10 @@ import (
 
 	"verif/internal/core"
 	"verif/internal/gen"
+	"verif/internal/sched"
 	"verif/internal/tsdbhist"
 	"verif/internal/tsdbx"
+	"verif/props/c22/headdisk"
 )
 
 func init() {
@@ -42,9 +45,9 @@ func init() {
 				return 0
 			}
 			if tier == core.Thorough {
-				return 6000
+				return 3000
 			}
-			return 320
+			return 200
 		},
 		Run:            run,
 		MinNontrivial:  func(t core.Tier) int { return 60 },
@@ -69,6 +72,15 @@ const (
 	// A commit that dropped k>0 samples (counter delta) raised the chunks gauge by up to k more
 	// than the number of chunks that came into existence.
 	kindChunksDropped = "head-chunks-gauge-double-counts-when-next-sample-is-dropped-at-commit"
+	// Right after a reopen that loaded the chunk snapshot, then failed to load the m-mapped
+	// chunks (corruption counter > 0) and replayed the whole WAL on top of the snapshot state.
+	kindStaleOverSnapshot = "stale-series-gauge-double-counts-when-wal-is-replayed-over-loaded-snapshot"
+	// The chunks gauge falls behind the recount by N−k where, as observed from outside, k
+	// out-of-order head chunks were m-mapped into N>k chunks (one per encoding/layout segment).
+	kindOOOSplit = "head-chunks-gauge-counts-one-for-ooo-head-chunk-mmapped-into-several"
+	// Right after a reopen that replayed a WAL in which a series record follows sample records
+	// of the same series: the gauge exceeds the recount.
+	kindReplayReset = "head-chunks-gauge-keeps-replayed-chunks-dropped-by-later-series-record"
 )
 
 type histRef struct {
@@ -107,14 +119,25 @@ type heldApp struct {
 	commit, rollback func() error
 	desc             string
 	hists            []histRef
+	accepted         int
 }
 
 // stepCtx is what the harness observed about the step, from outside the head.
 type stepCtx struct {
 	newHead     bool                 // the DB was reopened in this step
 	preClose    tsdb.VerifHeadCounts // recount taken before the close (newHead only)
-	commitDrops int                  // samples dropped while committing (delta of the three rejection counters around Commit)
+	commitDrops int                  // samples that Append accepted and Commit did not append (accepted − delta of samples_appended_total)
 	histExp     int                  // bucket entries added in place to histogram objects committed in this step
+	lateSeries  int                  // newHead: series records in the replayed WAL that follow sample records of the same series
+	before      tsdb.VerifHeadCounts // recount before the step (live steps)
+	hasBefore   bool
+}
+
+// midObs is a recount + gauge reading taken at a hook point inside a maintenance step.
+type midObs struct {
+	site  string
+	rc    tsdb.VerifHeadCounts
+	gauge float64
 }
 
 type state struct {
@@ -131,6 +154,9 @@ type state struct {
 	biasStale   int // gauge − recount
 	reported    map[string]bool
 	known       map[string]int
+	ctl         *sched.Controller
+	mid         []midObs // observations at hook points during the current step
+	watch       bool
 
 	checks, checksNonEmpty                   int
 	maxStale, maxHist, maxHeld               int
@@ -151,7 +177,24 @@ func run(c *core.Case) {
 	g := tsdbhist.NewGen(r, cfg)
 	g.WRestart = 8
 	s := &state{c: c, r: r, cfg: cfg, e: e, g: g, reported: map[string]bool{}, known: map[string]int{}}
-	defer s.releaseAll("rollback", false) // never leave an appender open when the DB is closed
+	// Our own hook handler (replaces the executor's block observer, which C52 does not need):
+	// inside compaction steps a recount + gauge reading is taken at the lock-free hook points, only
+	// to attribute a disagreement found at the END of the step to a sub-step.
+	s.ctl = sched.Install()
+	defer s.ctl.Uninstall()
+	s.ctl.OnHit(func(site string, _ *sched.Actor) {
+		if !s.watch || e.DB == nil {
+			return
+		}
+		if strings.HasPrefix(site, "tsdb.compactHead.") || strings.HasPrefix(site, "tsdb.compactOOO.") || site == "tsdb.truncMem.afterGC" {
+			mfs, err := e.Reg.Gather()
+			if err != nil {
+				return
+			}
+			s.mid = append(s.mid, midObs{site: site, rc: e.DB.Head().VerifRecount(), gauge: tsdbhist.SumMetric(mfs, "prometheus_tsdb_head_chunks")})
+		}
+	})
+	defer func() { s.releaseAll("rollback", false) }() // never leave an appender open when the DB is closed
 
 	if !s.check("open", stepCtx{}) {
 		return
@@ -177,22 +220,26 @@ func run(c *core.Case) {
 				s.gcSteps++
 			}
 			c.Logf("op %d: %s", i, op)
-			var ctx stepCtx
+			if op.Kind == "restart" {
+				ok = s.restart(fmt.Sprintf("step %d (restart)", i), "restart", nil)
+				break
+			}
+			ctx := stepCtx{before: e.DB.Head().VerifRecount(), hasBefore: true}
 			var hs []histRef
-			var rej0 float64
-			switch op.Kind {
-			case "restart":
-				ctx.newHead = true
-				ctx.preClose = e.DB.Head().VerifRecount()
-			case "append":
+			var app0 float64
+			if op.Kind == "append" {
 				for _, smp := range op.Samples {
 					if x, ok := newHistRef(smp.H, smp.FH); ok {
 						hs = append(hs, x)
 					}
 				}
-				rej0 = s.rejected()
+				app0 = s.appended()
+			} else {
+				s.mid, s.watch = s.mid[:0], true
 			}
-			if err := e.Apply(op); err != nil {
+			err := e.Apply(op)
+			s.watch = false
+			if err != nil {
 				c.Violatef("operation-failed:"+strings.SplitN(fmt.Sprint(err), ":", 2)[0], "config {%s}\nstep %d (%s) failed: %v\nhistory: %s", cfg, i, op, err, tail(e.History()))
 				return
 			}
@@ -201,14 +248,13 @@ func run(c *core.Case) {
 			}
 			if op.Kind == "append" {
 				ctx.histExp = expansion(hs)
-				atAppend := 0
+				accepted := 0
 				for _, err := range e.LastAppendErrs {
-					switch tsdbhist.ErrClass(err) {
-					case "out-of-order", "out-of-bounds", "too-old":
-						atAppend++
+					if err == nil {
+						accepted++
 					}
 				}
-				if d := int(s.rejected()-rej0) - atAppend; d > 0 && !op.Rollback {
+				if d := accepted - int(s.appended()-app0); d > 0 && !op.Rollback {
 					ctx.commitDrops = d
 				}
 			}
@@ -260,13 +306,12 @@ func (s *state) note(step string) {
 	s.c.Logf("extra op: %s", step)
 }
 
-// rejected sums the three rejection counters (append-time and commit-time rejections).
-func (s *state) rejected() float64 {
+// appended reads prometheus_tsdb_head_samples_appended_total (all types): what commits really
+// appended, in-order or out-of-order.
+func (s *state) appended() float64 {
 	mfs, err := s.e.Reg.Gather()
 	core.Must(err, "gather registry")
-	return tsdbhist.SumMetric(mfs, "prometheus_tsdb_out_of_order_samples_total") +
-		tsdbhist.SumMetric(mfs, "prometheus_tsdb_too_old_samples_total") +
-		tsdbhist.SumMetric(mfs, "prometheus_tsdb_out_of_bound_samples_total")
+	return tsdbhist.SumMetric(mfs, "prometheus_tsdb_head_samples_appended_total")
 }
 
 // sampleFor draws a sample for a held appender: floats, histograms, staleness markers of every
@@ -343,6 +388,9 @@ func (s *state) hold() bool {
 		if x, ok := newHistRef(hh, fh); ok && err == nil {
 			h.hists = append(h.hists, x)
 		}
+		if err == nil {
+			h.accepted++
+		}
 		stale := ""
 		if (kind == "f" && value.IsStaleNaN(f)) || (hh != nil && value.IsStaleNaN(hh.Sum)) || (fh != nil && value.IsStaleNaN(fh.Sum)) {
 			stale = "stale"
@@ -370,13 +418,13 @@ func (s *state) closeHeld(i int, how string, doCheck bool) bool {
 		}
 	}
 	var err error
-	var ctx stepCtx
+	ctx := stepCtx{before: s.e.DB.Head().VerifRecount(), hasBefore: true}
 	if how == "commit" {
-		rej0 := s.rejected()
+		app0 := s.appended()
 		err = h.commit()
 		if err == nil {
 			s.e.Commits++
-			ctx.commitDrops = int(s.rejected() - rej0)
+			ctx.commitDrops = h.accepted - int(s.appended()-app0)
 			ctx.histExp = expansion(h.hists)
 		}
 	} else {
@@ -441,20 +489,20 @@ func (s *state) compactSelected() bool {
 	s.note(step)
 	s.gcSteps++
 	s.selectedCompactions++
-	if err := s.e.DB.CompactSelectedSeries(sel); err != nil {
+	ctx := stepCtx{before: s.e.DB.Head().VerifRecount(), hasBefore: true}
+	s.mid, s.watch = s.mid[:0], true
+	err := s.e.DB.CompactSelectedSeries(sel)
+	s.watch = false
+	if err != nil {
 		s.c.Violatef("operation-failed:CompactSelectedSeries", "config {%s}\n%s failed: %v\nhistory: %s", s.cfg, step, err, tail(s.e.History()))
 		return false
 	}
-	return s.check(step, stepCtx{})
+	return s.check(step, ctx)
 }
 
-// damagedSnapshotRestart closes the DB (which writes a chunk snapshot), damages the snapshot
-// and reopens: the head must fall back to replaying the WAL and its counters must still match.
-func (s *state) damagedSnapshotRestart() bool {
-	if !s.releaseAll("", true) {
-		return false
-	}
-	s.gcSteps++
+// restart closes the DB, optionally damages what the close left on disk, decodes the WAL the
+// reopen is going to replay (for the classification of replay-related defects) and reopens.
+func (s *state) restart(where, step string, damage func() string) bool {
 	e := s.e
 	ctx := stepCtx{newHead: true, preClose: e.DB.Head().VerifRecount()}
 	if err := e.DB.Close(); err != nil {
@@ -463,55 +511,80 @@ func (s *state) damagedSnapshotRestart() bool {
 		return false
 	}
 	e.DB = nil
-	how := "none"
-	dirs, _ := filepath.Glob(filepath.Join(e.Dir, "chunk_snapshot.*"))
-	sort.Strings(dirs)
-	if len(dirs) > 0 {
-		segs, _ := filepath.Glob(filepath.Join(dirs[len(dirs)-1], "0*"))
-		sort.Strings(segs)
-		if len(segs) > 0 {
-			p := segs[len(segs)-1]
-			b, err := os.ReadFile(p)
-			core.Must(err, "read snapshot segment")
-			// the used part of the segment (the rest is zero padding up to the page size)
-			used := len(b)
-			for used > 0 && b[used-1] == 0 {
-				used--
-			}
-			if used > 16 {
-				switch s.r.IntN(3) {
-				case 0: // flip one byte behind the first record header
-					i := 8 + s.r.IntN(used-8)
-					b[i] ^= 0x5a
-					how = fmt.Sprintf("flip@%d/%d", i, used)
-				case 1: // cut the tail
-					n := 8 + s.r.IntN(used-8)
-					b = b[:n]
-					how = fmt.Sprintf("cut@%d/%d", n, used)
-				default: // zero a stretch
-					i := 8 + s.r.IntN(used-8)
-					for j := i; j < len(b) && j < i+32; j++ {
-						b[j] = 0
-					}
-					how = fmt.Sprintf("zero@%d+32/%d", i, used)
-				}
-				core.Must(os.WriteFile(p, b, 0o644), "write damaged snapshot segment")
-			}
-		}
+	if damage != nil {
+		step += "(" + damage() + ")"
+		where = step
 	}
-	s.damagedRestarts++
+	recs, _, err := headdisk.Scan(e.Dir)
+	core.Must(err, "decode WAL")
+	ctx.lateSeries = headdisk.LateSeriesRecords(recs)
 	e.Restarts++
-	step := "damagedSnapshotRestart(" + how + ")"
 	s.note(step)
 	e.Reg = prometheus.NewRegistry()
-	db, err := tsdb.Open(e.Dir, tsdbx.NopLogger(), e.Reg, e.Cfg.Options(), nil)
+	logger := tsdbx.NopLogger()
+	if s.c.Verbose {
+		logger = slog.New(slog.NewTextHandler(os.Stderr, nil))
+	}
+	db, err := tsdb.Open(e.Dir, logger, e.Reg, e.Cfg.Options(), nil)
 	if err != nil {
-		s.c.Violatef("operation-failed:reopen-after-damaged-snapshot", "config {%s}\n%s: reopen failed: %v\nhistory: %s", s.cfg, step, err, tail(e.History()))
+		s.c.Violatef("operation-failed:reopen", "config {%s}\n%s: reopen failed: %v\nhistory: %s", s.cfg, step, err, tail(e.History()))
 		return false
 	}
 	db.DisableCompactions()
 	e.DB = db
-	return s.check(step, ctx)
+	return s.check(where, ctx)
+}
+
+// damagedSnapshotRestart: the close writes a chunk snapshot, the harness damages it, the head
+// must fall back to replaying the WAL and its counters must still match.
+func (s *state) damagedSnapshotRestart() bool {
+	if !s.releaseAll("", true) {
+		return false
+	}
+	s.gcSteps++
+	s.damagedRestarts++
+	return s.restart("", "damagedSnapshotRestart", func() string {
+		how := "none"
+		dirs, _ := filepath.Glob(filepath.Join(s.e.Dir, "chunk_snapshot.*"))
+		sort.Strings(dirs)
+		if len(dirs) == 0 {
+			return how
+		}
+		segs, _ := filepath.Glob(filepath.Join(dirs[len(dirs)-1], "0*"))
+		sort.Strings(segs)
+		if len(segs) == 0 {
+			return how
+		}
+		p := segs[len(segs)-1]
+		b, err := os.ReadFile(p)
+		core.Must(err, "read snapshot segment")
+		// the used part of the segment (the rest is zero padding up to the page size)
+		used := len(b)
+		for used > 0 && b[used-1] == 0 {
+			used--
+		}
+		if used <= 16 {
+			return how
+		}
+		switch s.r.IntN(3) {
+		case 0: // flip one byte behind the first record header
+			i := 8 + s.r.IntN(used-8)
+			b[i] ^= 0x5a
+			how = fmt.Sprintf("flip@%d/%d", i, used)
+		case 1: // cut the tail
+			n := 8 + s.r.IntN(used-8)
+			b = b[:n]
+			how = fmt.Sprintf("cut@%d/%d", n, used)
+		default: // zero a stretch
+			i := 8 + s.r.IntN(used-8)
+			for j := i; j < len(b) && j < i+32; j++ {
+				b[j] = 0
+			}
+			how = fmt.Sprintf("zero@%d+32/%d", i, used)
+		}
+		core.Must(os.WriteFile(p, b, 0o644), "write damaged snapshot segment")
+		return how
+	})
 }
 
 func metric(mfs []*dto.MetricFamily, name string) (float64, bool) {
@@ -566,6 +639,7 @@ func (s *state) check(where string, ctx stepCtx) bool {
 		s.maxHist = rc.HistogramSeries
 	}
 	snapshotLoaded, snapshotFailed := false, false
+	mmapCorrupt, _ := metric(mfs, "prometheus_tsdb_mmap_chunk_corruptions_total")
 	if ctx.newHead {
 		s.biasChunks, s.biasBuckets, s.biasStale = 0, 0, 0 // a new Head starts from zero
 		if s.cfg.Snapshot {
@@ -613,6 +687,9 @@ func (s *state) check(where string, ctx stepCtx) bool {
 		if snapshotFailed && over > 0 && over <= ctx.preClose.StaleSeries {
 			s.biasStale += over
 			s.knownf(kindStaleSnapshot, "config {%s}\nafter %s (chunk snapshot load failed, head rebuilt from the WAL): prometheus_tsdb_head_stale_series = %d but %d series are stale (%d stale series were in the head when the snapshot was written)%s", s.cfg, where, h.NumStaleSeries(), rc.StaleSeries, ctx.preClose.StaleSeries, suffix())
+		} else if snapshotLoaded && mmapCorrupt > 0 && over > 0 && over <= ctx.preClose.StaleSeries {
+			s.biasStale += over
+			s.knownf(kindStaleOverSnapshot, "config {%s}\nafter %s (chunk snapshot loaded, then loading the m-mapped chunks failed and the whole WAL was replayed on top): prometheus_tsdb_head_stale_series = %d but %d series are stale%s", s.cfg, where, h.NumStaleSeries(), rc.StaleSeries, suffix())
 		} else {
 			c.Violatef("stale-series-gauge-mismatch", "config {%s}\nafter %s: Head.NumStaleSeries() = %d (known excess carried: %d) but the recount gives %d%s", s.cfg, where, h.NumStaleSeries(), s.biasStale, rc.StaleSeries, suffix())
 			ok = false
@@ -637,27 +714,87 @@ func (s *state) check(where string, ctx stepCtx) bool {
 
 	// ---- chunks
 	gotChunks := g("prometheus_tsdb_head_chunks")
-	if over := int(gotChunks) - totalChunks - s.biasChunks; over != 0 || gotChunks != math.Trunc(gotChunks) {
+	if gotChunks != math.Trunc(gotChunks) {
+		c.Violatef("chunks-gauge-mismatch", "config {%s}\nafter %s: prometheus_tsdb_head_chunks = %v is not an integer%s", s.cfg, where, gotChunks, suffix())
+		return false
+	}
+	if over := int(gotChunks) - totalChunks - s.biasChunks; over != 0 {
+		// What the harness saw, from outside, that the known defect classes need:
+		// split: upper bound (live append/commit steps: exact when nothing else happened) of N−k for
+		// out-of-order head chunks m-mapped into several chunks.
+		split := 0
 		switch {
-		case snapshotLoaded && -over == rc.HeadChunks:
+		case ctx.newHead:
+			// WBL replay re-inserts the out-of-order samples and m-maps full chunks again; not
+			// observable from outside: every out-of-order m-mapped chunk but one may be such a piece
+			if rc.OOOMmappedChunks > 1 {
+				split = rc.OOOMmappedChunks - 1
+			}
+		case len(s.mid) > 0:
+			// maintenance step: between two consecutive hook points the recount changed ONLY by
+			// k out-of-order head chunks becoming N>k out-of-order m-mapped chunks and the gauge
+			// did not move
+			prev := midObs{site: "start", rc: ctx.before, gauge: float64(totalOf(ctx.before) + s.biasChunks)}
+			for _, m := range s.mid {
+				k := prev.rc.OOOHeadChunks - m.rc.OOOHeadChunks
+				n := m.rc.OOOMmappedChunks - prev.rc.OOOMmappedChunks
+				x, y := prev.rc, m.rc
+				x.OOOHeadChunks, x.OOOMmappedChunks, y.OOOHeadChunks, y.OOOMmappedChunks = 0, 0, 0, 0
+				if k >= 1 && n > k && x == y && m.gauge == prev.gauge {
+					split += n - k
+				}
+				prev = m
+			}
+		case ctx.hasBefore:
+			// append / commit step (no garbage collection inside): N = new out-of-order m-mapped
+			// chunks, k ≥ 1
+			if n := rc.OOOMmappedChunks - ctx.before.OOOMmappedChunks; n > 1 {
+				split = n - 1
+			}
+		}
+		switch {
+		case snapshotLoaded && mmapCorrupt == 0 && -over == rc.HeadChunks:
 			// every in-order head chunk in memory right after the reopen was installed by the
 			// snapshot loader (the WAL behind a shutdown snapshot is empty)
 			s.biasChunks += over
 			s.knownf(kindSnapshotChunks, "config {%s}\nafter %s: prometheus_tsdb_head_chunks = %v but the head holds %d chunks (%d in-order head chunks loaded from the chunk snapshot + %d m-mapped + %d ooo m-mapped + %d ooo head); deficit = number of head chunks installed by loadChunkSnapshot%s", s.cfg, where, gotChunks, totalChunks, rc.HeadChunks, rc.MmappedChunks, rc.OOOMmappedChunks, rc.OOOHeadChunks, suffix())
+		case ctx.newHead && (!snapshotLoaded || mmapCorrupt > 0) && over > 0 && ctx.lateSeries > 0:
+			s.biasChunks += over
+			s.knownf(kindReplayReset, "config {%s}\nafter %s: prometheus_tsdb_head_chunks = %v but the head holds %d chunks; the replayed WAL has %d series records that follow sample records of the same series (replayed head chunks are dropped by such a record without adjusting the gauge)%s", s.cfg, where, gotChunks, totalChunks, ctx.lateSeries, suffix())
+		case ctx.newHead && !snapshotLoaded && over < 0 && -over <= split && ctx.lateSeries == 0:
+			s.biasChunks += over
+			s.knownf(kindOOOSplit, "config {%s}\nafter %s: prometheus_tsdb_head_chunks = %v but the head holds %d chunks, %d of them out-of-order m-mapped chunks (WBL replay m-maps a full out-of-order head chunk into one chunk per encoding/layout segment and counts one)%s", s.cfg, where, gotChunks, totalChunks, rc.OOOMmappedChunks, suffix())
+		case ctx.newHead && !snapshotLoaded && ctx.lateSeries > 0 && -over <= split:
+			// both replay mechanisms may have acted; sign decides the label
+			s.biasChunks += over
+			s.knownf(kindOOOSplit, "config {%s}\nafter %s: prometheus_tsdb_head_chunks = %v but the head holds %d chunks, %d of them out-of-order m-mapped chunks; the WAL also has %d late series records%s", s.cfg, where, gotChunks, totalChunks, rc.OOOMmappedChunks, ctx.lateSeries, suffix())
 		case !ctx.newHead && over > 0 && over <= ctx.commitDrops:
 			s.biasChunks += over
-			s.knownf(kindChunksDropped, "config {%s}\nafter %s: prometheus_tsdb_head_chunks = %v (known offset carried: %d) but the head holds %d chunks; the commit dropped %d samples%s", s.cfg, where, gotChunks, s.biasChunks-over, totalChunks, ctx.commitDrops, suffix())
+			s.knownf(kindChunksDropped, "config {%s}\nafter %s: prometheus_tsdb_head_chunks = %v (known offset carried: %d) but the head holds %d chunks; Append had accepted %d more samples than the commit appended%s", s.cfg, where, gotChunks, s.biasChunks-over, totalChunks, ctx.commitDrops, suffix())
+		case !ctx.newHead && len(s.mid) > 0 && -over == split:
+			s.biasChunks += over
+			s.knownf(kindOOOSplit, "config {%s}\nafter %s: prometheus_tsdb_head_chunks = %v (known offset carried: %d) but the head holds %d chunks; inside the step out-of-order head chunks were m-mapped into %d more chunks than there were head chunks, the gauge did not move%s", s.cfg, where, gotChunks, s.biasChunks-over, totalChunks, split, suffix())
+		case !ctx.newHead && len(s.mid) == 0 && over >= -split && over <= ctx.commitDrops:
+			s.biasChunks += over
+			kind := kindOOOSplit
+			if over > 0 {
+				kind = kindChunksDropped
+			}
+			s.knownf(kind, "config {%s}\nafter %s: prometheus_tsdb_head_chunks = %v (known offset carried: %d) but the head holds %d chunks; the step added %d out-of-order m-mapped chunks (before: %+v) and dropped %d accepted samples at commit%s", s.cfg, where, gotChunks, s.biasChunks-over, totalChunks, rc.OOOMmappedChunks-ctx.before.OOOMmappedChunks, ctx.before, ctx.commitDrops, suffix())
 		default:
-			c.Violatef("chunks-gauge-mismatch", "config {%s}\nafter %s: prometheus_tsdb_head_chunks = %v (known offset carried: %d) but the recount gives %d%s", s.cfg, where, gotChunks, s.biasChunks, totalChunks, suffix())
+			c.Violatef("chunks-gauge-mismatch", "config {%s}\nafter %s: prometheus_tsdb_head_chunks = %v (known offset carried: %d) but the recount gives %d (ooo split observed: %d, hook observations: %d)%s", s.cfg, where, gotChunks, s.biasChunks, totalChunks, split, len(s.mid), suffix())
 			ok = false
 		}
-	} else if snapshotLoaded && rc.HeadChunks > 0 {
+	}
+	if snapshotLoaded && rc.HeadChunks > 0 {
 		s.snapshotLoads++
 	}
-	if snapshotLoaded && s.reported[kindSnapshotChunks] {
-		s.snapshotLoads++
-	}
+	s.mid = s.mid[:0]
 	return ok
+}
+
+func totalOf(rc tsdb.VerifHeadCounts) int {
+	return rc.HeadChunks + rc.MmappedChunks + rc.OOOMmappedChunks + rc.OOOHeadChunks
 }
 
 func tail(s string) string {
